@@ -30,10 +30,13 @@ def mixBlock (h k : UInt32) : UInt32 := rotl32 (h ^^^ scramble k) 13 * 5 + 0xe65
 /-- `getblock32`: the little-endian 32-bit word made of four bytes -/
 def le32 (a b c d : UInt8) : UInt32 := UInt32.ofNat (leNat [a, b, c, d])
 
-/-- all complete 4-byte blocks, in order; returns the state and the 0..3 bytes left over -/
-def blocks (h : UInt32) : Bytes → UInt32 × Bytes
-  | a :: b :: c :: d :: rest => blocks (mixBlock h (le32 a b c d)) rest
+/-- feed all complete 4-byte blocks, in order, to `f`; returns the state and the 0..3 bytes left over -/
+def foldBlocks (f : UInt32 → UInt32 → UInt32) (h : UInt32) : Bytes → UInt32 × Bytes
+  | a :: b :: c :: d :: rest => foldBlocks f (f h (le32 a b c d)) rest
   | t => (h, t)
+
+/-- the body: every complete block goes through `mixBlock` -/
+def blocks (h : UInt32) (data : Bytes) : UInt32 × Bytes := foldBlocks mixBlock h data
 
 /-- the `switch (len & 3)` of the reference: nothing happens when no byte is left -/
 def tailMix (h : UInt32) : Bytes → UInt32
